@@ -99,6 +99,7 @@ fn work(set: Vec<(usize, Ch, IpcSender<u32>, IpcReceiver<u32>)>) -> Result<(), S
     for (i, c, tx, rx) in set {
         let tx = if c.drop_before_convert {
             for s in 0..c.post {
+                e1::inproc_point();
                 tx.send(i as u32 * 100 + c.pre + s).map_err(|e| format!("send: {}", e))?;
             }
             drop(tx);
@@ -106,6 +107,7 @@ fn work(set: Vec<(usize, Ch, IpcSender<u32>, IpcReceiver<u32>)>) -> Result<(), S
         } else {
             Some(tx)
         };
+        e1::inproc_point();
         let st = rx.to_stream();
         streams.push((i, c, tx, st));
     }
@@ -113,6 +115,7 @@ fn work(set: Vec<(usize, Ch, IpcSender<u32>, IpcReceiver<u32>)>) -> Result<(), S
     for (i, c, tx, st) in streams {
         if let Some(tx) = tx {
             for s in 0..c.post {
+                e1::inproc_point();
                 tx.send(i as u32 * 100 + c.pre + s).map_err(|e| format!("send after conversion: {}", e))?;
             }
             drop(tx);
@@ -120,6 +123,7 @@ fn work(set: Vec<(usize, Ch, IpcSender<u32>, IpcReceiver<u32>)>) -> Result<(), S
         ready.push((i, c, st));
     }
     for (i, c, st) in ready {
+        e1::inproc_point();
         let got = consume(st, c.manual)?;
         let want: Vec<u32> = (0..c.pre + c.post).map(|s| i as u32 * 100 + s).collect();
         obs(format!("ch{}={:?}", i, got));
@@ -160,8 +164,10 @@ fn quiet_burst_body(n: usize, manual: bool) -> Result<(), String> {
     for _ in 0..n {
         let (tx, rx) = ipc::channel::<u32>().map_err(|e| e.to_string())?;
         txs.push(tx);
+        e1::inproc_point();
         streams.push(rx.to_stream());
     }
+    e1::inproc_point();
     txs[n - 1].send(4242).map_err(|e| e.to_string())?;
     let mut last = streams.pop().unwrap();
     let first = if manual {
@@ -259,10 +265,21 @@ pub fn scenarios(tier: Tier) -> Vec<Scenario> {
     v
 }
 
-pub fn run(tier: Tier, _part: bool) -> i32 {
-    let mut rep = Report::new("C20", tier, "model_checking");
-    let scs = scenarios(tier);
-    let tot = e1::run_scenarios(&mut rep, &scs, &e1::strict_judge, if tier.is_quick() { 40.0 } else { 3000.0 });
+pub fn run(tier: Tier, part_only: bool) -> i32 {
+    super::run_with_inproc("C20", tier, part_only, "model_checking", &run_all)
+}
+
+fn run_all(rep: &mut Report, tier: Tier) {
+    let mut scs = scenarios(tier);
+    for sc in scs.iter_mut() {
+        // in-process build: two tasks with long backlogs have a free choice at every harness point
+        if cfg!(feature = "inproc") && sc.name.contains("/by1") && (sc.name.contains("pre40") || sc.name.contains("post45") || sc.name.contains("pre80")) {
+            sc.cfg.strict_deviations = true;
+            sc.bound = sc.bound.max(1);
+        }
+        sc.cfg.yield_alts = cfg!(feature = "inproc") && !sc.cfg.strict_deviations;
+    }
+    let tot = e1::run_scenarios(rep, &scs, &e1::strict_judge, if tier.is_quick() { 40.0 } else { 3000.0 });
     rep.set("deviation_bound_min", json!(tot.min_bound));
     rep.set("deviation_bound_max", json!(tot.max_bound));
     rep.set("evaluations", json!(tot.execs));
@@ -270,10 +287,10 @@ pub fn run(tier: Tier, _part: bool) -> i32 {
     rep.set("rule", json!("one evaluation = one complete schedule (<= bound deviations; scheduling points before every system call / futex wait and after every transmission) of tasks that convert 1-2 receivers into streams (0-2 messages queued before conversion, 0-2 sent after, sender dropped before or after conversion), feed them and consume them with futures::executor::block_on or a hand-written poll loop with a parking waker, against the real routing thread; schedules are distinct by construction (the depth-first search never repeats a choice sequence) and a schedule counts as non-trivial when it contains at least one context switch; enumerated cases are distinct by construction"));
     rep.assume("the routing thread is a process-global lazy: every execution is a fresh process, so it starts in each execution");
     rep.assume("user-space-only steps (futures mpsc, AtomicWaker) between scheduling points are atomic");
-    rep.finish()
 }
 
 pub fn replay(tier: Tier, v: &Value) -> i32 {
+    let v = if v.get("variant").is_some() { &v["case"] } else { v };
     let mut scs = scenarios(tier);
     scs.extend(scenarios(if tier.is_quick() { Tier::Thorough } else { Tier::Quick }));
     e1::replay(&scs, v)
